@@ -279,6 +279,12 @@ def oracle_c05(steps: list[Step]) -> list[Violation]:
 # ---------------------------------------------------------------------------
 
 
+import re as _re
+
+# `{ a, b, }:` / `{\n  a,\n}@args:` - the closing brace of an argument set right after a comma
+_TRAILING_COMMA_FORMALS = _re.compile(r",\s*(?:#[^\n]*\n\s*)*\}\s*(?::|@)")
+
+
 def fixed_point_violation(text: str, what: str, step, facts) -> Violation | None:
     from nix_manipulator import parse
 
@@ -302,6 +308,10 @@ def oracle_c06(doc: str, steps: list[Step], *, check_start: bool = True) -> list
         v = fixed_point_violation(first, "rebuilt start document", None, {"op": "start", "mode": "fresh"})
         if v:
             out.append(v)
+        elif reader.Doc(first).has_error():
+            # a plain rebuild of a valid source that the library's own parser no longer accepts: `nima test` says Fail
+            out.append(Violation("C06.rebuilt_invalid", "the rebuilt start document has a syntax error: %r" % first[-200:], None,
+                                 {"op": "start", "mode": "fresh", "trailing_comma_formals": bool(_TRAILING_COMMA_FORMALS.search(first))}))
     for st in steps:
         if st.outcome != "ok":
             continue
